@@ -69,6 +69,13 @@ func main() {
 			terms = append(terms, runParamsCase(ta, *seed, i, rep, *profile))
 			rep.Cases++
 		}
+	case "upgrade":
+		require, caseType, fn = "Upgrade", "ucase", "umismatches"
+		ta := NewTestApp(GenOpts{Time: time.Unix(1690000000, 0).UTC()})
+		for i := lo; i < hi; i++ {
+			terms = append(terms, runUpgradeCase(ta, *seed, i, rep, *profile))
+			rep.Cases++
+		}
 	case "sig":
 		require, caseType, fn = "Sig", "scase", "smismatches"
 		ta := NewTestApp(GenOpts{Time: time.Unix(1690000000, 0).UTC()})
